@@ -188,7 +188,12 @@ Fixpoint skel (v : value) : bool :=
   | VStruct _ ps => forallb skel ps
   | VList LVoid es => forallb (fun e => match e with VStruct [] [] => true | _ => false end) es
   | VList LPtr es => forallb (fun e => match e with VStruct [] [p] => skel p | _ => false end) es
-  | VList LComp _ => false
+  | VList LComp es =>
+    forallb (fun e => match e with
+                      | VStruct d ps => (length d =? max_len sdata es)%nat && (length ps =? max_len sptrs es)%nat
+                                        && forallb skel ps
+                      | _ => false
+                      end) es
   | VList k es => forallb (fun e => match e with
                                     | VStruct [v] [] => (0 <=? v) && (v <? kind_base k)
                                     | _ => false
@@ -257,7 +262,78 @@ Proof.
   unfold cell_vals in *. cbn [map flat_map sptrs hd_ptr app]. rewrite (IH Hr). reflexivity.
 Qed.
 
-(* [T1] stated in full; proved below for the pointer skeleton (cparse_enc_partial) *)
+
+(* ---- struct lists: uniform elements *)
+Definition uniform (dn pn : nat) (es : list value) : Prop :=
+  Forall (fun e => exists d ps, e = VStruct d ps /\ length d = dn /\ length ps = pn) es.
+
+Lemma pad0_id n l : length l = n -> pad0 n l = l.
+Proof. intros <-. unfold pad0. rewrite Nat.sub_diag. apply app_nil_r. Qed.
+Lemma padN_id n l : length l = n -> padN n l = l.
+Proof. intros <-. unfold padN. rewrite Nat.sub_diag. apply app_nil_r. Qed.
+
+Lemma uniform_cells dn pn es : uniform dn pn es ->
+  flat_map (fun e => struct_cells (pad0 dn (sdata e)) (padN pn (sptrs e))) es
+  = flat_map (fun e => struct_cells (sdata e) (sptrs e)) es.
+Proof.
+  induction 1 as [|e r (d & ps & -> & Ld & Lp) Hr IH]; [reflexivity|].
+  cbn [flat_map sdata sptrs]. rewrite pad0_id, padN_id, IH by assumption. reflexivity.
+Qed.
+
+Lemma uniform_shape dn pn es : uniform dn pn es ->
+  shape_of (flat_map (fun e => struct_cells (sdata e) (sptrs e)) es)
+  = concat (repeat (repeat SW dn ++ repeat SP pn) (length es)).
+Proof.
+  induction 1 as [|e r (d & ps & -> & Ld & Lp) Hr IH]; [reflexivity|].
+  cbn [flat_map sdata sptrs length repeat concat]. unfold shape_of in *. rewrite map_app.
+  fold (shape_of (struct_cells d ps)). rewrite shape_struct_cells, Ld, Lp, IH. reflexivity.
+Qed.
+
+Lemma struct_cells_length d ps : length (struct_cells d ps) = (length d + length ps)%nat.
+Proof. unfold struct_cells. rewrite app_length, !map_length. reflexivity. Qed.
+
+Lemma uniform_length dn pn es : uniform dn pn es ->
+  length (flat_map (fun e => struct_cells (sdata e) (sptrs e)) es) = (length es * (dn + pn))%nat.
+Proof.
+  induction 1 as [|e r (d & ps & -> & Ld & Lp) Hr IH]; [reflexivity|].
+  cbn [flat_map sdata sptrs length]. rewrite app_length, struct_cells_length, IH, Ld, Lp. lia.
+Qed.
+
+Lemma uniform_cut dn pn es : uniform dn pn es ->
+  cut_elems (length es) dn pn (flat_map (fun e => struct_cells (sdata e) (sptrs e)) es) = es.
+Proof.
+  induction 1 as [|e r (d & ps & -> & Ld & Lp) Hr IH]; [reflexivity|].
+  cbn [flat_map sdata sptrs length cut_elems].
+  assert (L : length (struct_cells d ps) = (dn + pn)%nat) by (rewrite struct_cells_length; lia).
+  rewrite <- L, firstn_app, Nat.sub_diag, firstn_all, skipn_app, Nat.sub_diag, skipn_all. cbn [firstn skipn app].
+  rewrite app_nil_r, cell_words_struct, cell_vals_struct, IH. reflexivity.
+Qed.
+
+Lemma skel_uniform es :
+  forallb (fun e => match e with
+                    | VStruct d ps => (length d =? max_len sdata es)%nat && (length ps =? max_len sptrs es)%nat
+                                      && forallb skel ps
+                    | _ => false
+                    end) es = true ->
+  uniform (max_len sdata es) (max_len sptrs es) es
+  /\ forall e p, In e es -> In p (sptrs e) -> skel p = true.
+Proof.
+  generalize (max_len sdata es) (max_len sptrs es). intros dn pn H. rewrite forallb_forall in H. split.
+  - apply Forall_forall. intros e He. specialize (H e He). destruct e as [| |d ps| |]; try discriminate.
+    apply andb_prop in H. destruct H as [H _]. apply andb_prop in H. destruct H as [H1 H2].
+    exists d, ps. split; [reflexivity|]. split; [apply Nat.eqb_eq; assumption| apply Nat.eqb_eq; assumption].
+  - intros e p He Hp. specialize (H e He). destruct e as [| |d ps| |]; try (destruct Hp).
+    apply andb_prop in H. destruct H as [_ H]. rewrite forallb_forall in H. apply H. exact Hp.
+Qed.
+
+Lemma in_flat_cells v es : In (CP v) (flat_map (fun e => struct_cells (sdata e) (sptrs e)) es) ->
+  exists e, In e es /\ In v (sptrs e).
+Proof.
+  intros H. apply in_flat_map in H. destruct H as (e & He & Hc). exists e. split; [assumption|].
+  eapply in_struct_cells. eassumption.
+Qed.
+
+(* [T1] the full statement (proved with the hypotheses made explicit as CanonProofs3.cdecode_canon) *)
 Definition cparse_enc_statement : Prop :=
   forall v, wfv v = true -> forall bs, canon v = Some bs ->
   cdecode (S (vdepth (norm v))) bs = Some (norm v).
@@ -326,6 +402,41 @@ Proof.
         apply in_map_iff in Hin. destruct Hin as [e [He1 He2]]. inversion He1; subst.
         cbn [skel] in Hs. rewrite forallb_forall in Hs. specialize (Hs e He2).
         destruct e as [| |[|] [|p0 [|]]| |]; try discriminate. exact Hs.
+    + (* struct list *)
+      cbn [skel] in Hs. destruct (skel_uniform es Hs) as [Hu Hch].
+      set (dnn := max_len sdata es) in *. set (pnn := max_len sptrs es) in *.
+      set (dn := Z.of_nat dnn) in *. set (pn := Z.of_nat pnn) in *.
+      destruct ((dn >=? two16) || (pn >=? two16) || (zlen es * (dn + pn) >=? two29)) eqn:E2; [discriminate|].
+      assert (Hd : 0 <= dn < two16) by lia. assert (Hp : 0 <= pn < two16) by lia.
+      assert (HW : 0 <= zlen es * (dn + pn) < two29) by nia.
+      replace (Z.to_nat dn) with dnn in H by lia. replace (Z.to_nat pn) with pnn in H by lia.
+      rewrite (uniform_cells dnn pnn es Hu) in H.
+      set (cs := flat_map (fun e => struct_cells (sdata e) (sptrs e)) es) in *.
+      cbn [enc_cells] in H.
+      destruct (enc_cells (enc f) cs (cur + 1) (cur + 1 + zlen es * (dn + pn))) as [[b k]| | |] eqn:E; try discriminate.
+      cbn in H. inversion H; subst w body. clear H.
+      destruct (list_word_fields (cur - pos - 1) 7 (zlen es * (dn + pn)) ltac:(lia) HW) as [F0 [F1 [F2 [F3 F4]]]].
+      assert (Hcnt : 0 <= zlen es < two16 * two16 * 4) by (unfold two16, two29 in *; lia).
+      destruct (struct_word_fields (zlen es) dn pn Hd Hp) as [T0 [T1 [T2 [T3 _]]]].
+      cbn [cparse]. unfold cparse_body. set (w := list_word (cur - pos - 1) 7 (zlen es * (dn + pn))) in *.
+      destruct (w =? 0) eqn:Ew; [apply Z.eqb_eq in Ew; contradiction|].
+      rewrite F1, F2, F3, F4. cbn [Z.eqb negb]. rewrite Z.eqb_refl. cbn [negb Pos.eqb].
+      clear F0 F1 F2 F3 F4 Ew. clearbody w.
+      cbn [app]. set (tag := struct_word (zlen es) dn pn) in *.
+      rewrite T0, T1, T2, T3. rewrite (Z.mod_small (zlen es)) by (unfold two30, two29 in *; lia).
+      cbn [Z.eqb negb orb]. rewrite Z.eqb_refl. cbn [negb orb].
+      destruct (zlen es >=? two29) eqn:E3; [lia|].
+      clear T0 T1 T2 T3. clearbody tag.
+      rewrite <- app_assoc. rewrite (take_app (zlen es * (dn + pn)) b (k ++ rest)).
+      2:{ unfold zlen. rewrite (enc_cells_length _ _ _ _ _ _ E). unfold cs. rewrite (uniform_length dnn pnn es Hu).
+          unfold dn, pn. lia. }
+      replace (Z.to_nat dn) with dnn by lia. replace (Z.to_nat pn) with pnn by lia.
+      replace (Z.to_nat (zlen es)) with (length es) by (unfold zlen; lia).
+      rewrite <- (uniform_shape dnn pnn es Hu). fold cs.
+      rewrite (parse_enc_cells (enc f) (cparse f) cs _ _ _ _ rest E).
+      * unfold cs. rewrite (uniform_cut dnn pnn es Hu). reflexivity.
+      * intros v p c w0 body0 rest' Hin He. apply IH; [|exact He].
+        apply in_flat_cells in Hin. destruct Hin as (e & He1 & He2). eapply Hch; eassumption.
   - (* bit list *)
     assert (Hz : 0 <= zlen bs) by (unfold zlen; lia).
     destruct ((zlen bs >=? two29) || (cur - pos - 1 >=? two29)) eqn:E1; [discriminate|].
